@@ -82,41 +82,67 @@ Section Reforming.
   Qed.
 
   (* is February 29 of year y a date of the calendar? *)
+  Lemma feb29_old y :
+    (29 <=? old_mdays (CR r) y 2) = jleap y && ((y <? py) || ((y =? py) && ((3 <=? pm) || ((pm =? 2) && (pd =? 29))))).
+  Proof.
+    cbn [old_mdays]. unfold jdn_j. rewrite cum_2, mlen_2.
+    pose proof r_in_py as (EP & CP & DP & BP). pose proof pm_range as PM.
+    pose proof (J0_step y) as SY. pose proof (J0_step py) as SP.
+    pose proof (ylen_bounds (jleap y)). pose proof (ylen_bounds (jleap py)).
+    pose proof (mlen_bounds (jleap py) pm).
+    destruct (Z.lt_trichotomy y py) as [L1|[E1|L1]].
+    - assert (J0 (y + 1) <= J0 py). { destruct (Z.eq_dec (y + 1) py) as [<-|]; [lia|]. pose proof (J0_mono (y + 1) py ltac:(lia)). lia. }
+      destruct (jleap y); lia.
+    - subst y.
+      assert (FP : (pm = 1 /\ cum (jleap py) pm = 0) \/ (pm = 2 /\ cum (jleap py) pm = 31 /\ mlen (jleap py) pm = (if jleap py then 29 else 28)) \/ (3 <= pm /\ 59 <= cum (jleap py) pm)).
+      { destruct (Z.eq_dec pm 1) as [->|]; [left; split; reflexivity|]. destruct (Z.eq_dec pm 2) as [->|]; [right; left; repeat split; reflexivity|].
+        right; right. pose proof (cum_ge3 (jleap py) pm ltac:(lia)). destruct (jleap py); lia. }
+      destruct (jleap py); lia.
+    - assert (J0 (py + 1) <= J0 y). { destruct (Z.eq_dec (py + 1) y) as [<-|]; [lia|]. pose proof (J0_mono (py + 1) y ltac:(lia)). lia. }
+      destruct (jleap y); lia.
+  Qed.
+  Lemma feb29_new y :
+    (new_mfirst (CR r) y 2 <=? 29) && (29 <=? mlen (gleap y) 2) = gleap y && ((qy <? y) || ((y =? qy) && (qm <=? 2))).
+  Proof.
+    cbn [new_mfirst]. unfold jdn_g. rewrite cum_2, mlen_2.
+    pose proof r_in_qy as (EQ & CQ & DQ & BQ). pose proof qm_range as QM.
+    pose proof (G0_step y) as SY. pose proof (G0_step qy) as SQ.
+    pose proof (ylen_bounds (gleap y)). pose proof (ylen_bounds (gleap qy)).
+    pose proof (mlen_bounds (gleap qy) qm).
+    destruct (Z.lt_trichotomy y qy) as [L1|[E1|L1]].
+    - assert (G0 (y + 1) <= G0 qy). { destruct (Z.eq_dec (y + 1) qy) as [<-|]; [lia|]. pose proof (G0_mono (y + 1) qy ltac:(lia)). lia. }
+      destruct (gleap y); lia.
+    - subst y.
+      assert (FQ : (qm = 1 /\ cum (gleap qy) qm = 0) \/ (qm = 2 /\ cum (gleap qy) qm = 31 /\ mlen (gleap qy) qm = (if gleap qy then 29 else 28)) \/ (3 <= qm /\ 59 + (if gleap qy then 1 else 0) <= cum (gleap qy) qm)).
+      { destruct (Z.eq_dec qm 1) as [->|]; [left; split; reflexivity|]. destruct (Z.eq_dec qm 2) as [->|]; [right; left; repeat split; reflexivity|].
+        right; right. pose proof (cum_ge3 (gleap qy) qm ltac:(lia)). lia. }
+      destruct (gleap qy); lia.
+    - assert (G0 (qy + 1) <= G0 y). { destruct (Z.eq_dec (qy + 1) y) as [<-|]; [lia|]. pose proof (G0_mono (qy + 1) y ltac:(lia)). lia. }
+      destruct (gleap y); lia.
+  Qed.
   Lemma incal_feb29 y :
     incalb (CR r) y 2 29 =
     (jleap y && ((y <? py) || ((y =? py) && ((3 <=? pm) || ((pm =? 2) && (pd =? 29))))))
     || (gleap y && ((qy <? y) || ((y =? qy) && (qm <=? 2)))).
   Proof.
-    unfold incalb. cbn [old_mdays new_mfirst]. unfold jdn_j, jdn_g. rewrite !cum_2, !mlen_2.
-    pose proof r_in_py as (EP & CP & DP & BP). pose proof r_in_qy as (EQ & CQ & DQ & BQ).
-    pose proof pm_range as PM. pose proof qm_range as QM.
-    pose proof (J0_step y). pose proof (G0_step y). pose proof (J0_step py). pose proof (G0_step qy).
-    pose proof (ylen_bounds (jleap y)). pose proof (ylen_bounds (gleap y)).
-    pose proof (ylen_bounds (jleap py)). pose proof (ylen_bounds (gleap qy)).
-    (* February facts for the two boundary months *)
-    assert (FP : (pm = 1 /\ cum (jleap py) pm = 0) \/ (pm = 2 /\ cum (jleap py) pm = 31) \/ (3 <= pm /\ 59 <= cum (jleap py) pm)).
-    { destruct (Z.eq_dec pm 1) as [->|]; [left; split; reflexivity|]. destruct (Z.eq_dec pm 2) as [->|]; [right; left; split; reflexivity|].
-      right; right. pose proof (cum_ge3 (jleap py) pm ltac:(lia)). destruct (jleap py); lia. }
-    assert (FQ : (qm = 1 /\ cum (gleap qy) qm = 0) \/ (qm = 2 /\ cum (gleap qy) qm = 31) \/ (3 <= qm /\ 59 + (if gleap qy then 1 else 0) <= cum (gleap qy) qm)).
-    { destruct (Z.eq_dec qm 1) as [->|]; [left; split; reflexivity|]. destruct (Z.eq_dec qm 2) as [->|]; [right; left; split; reflexivity|].
-      right; right. pose proof (cum_ge3 (gleap qy) qm ltac:(lia)). lia. }
-    assert (MP : pm = 2 -> mlen (jleap py) pm = if jleap py then 29 else 28) by (intros ->; reflexivity).
-    assert (MQ : qm = 2 -> mlen (gleap qy) qm = if gleap qy then 29 else 28) by (intros ->; reflexivity).
-    pose proof (mlen_bounds (jleap py) pm). pose proof (mlen_bounds (gleap qy) qm).
-    (* relative position of year y *)
-    assert (OY : y < py -> J0 (y + 1) <= J0 py).
-    { intros L. destruct (Z.eq_dec (y + 1) py) as [<-|]; [lia|]. pose proof (J0_mono (y + 1) py ltac:(lia)). lia. }
-    assert (OY' : py < y -> J0 (py + 1) <= J0 y).
-    { intros L. destruct (Z.eq_dec (py + 1) y) as [<-|]; [lia|]. pose proof (J0_mono (py + 1) y ltac:(lia)). lia. }
-    assert (NY : y < qy -> G0 (y + 1) <= G0 qy).
-    { intros L. destruct (Z.eq_dec (y + 1) qy) as [<-|]; [lia|]. pose proof (G0_mono (y + 1) qy ltac:(lia)). lia. }
-    assert (NY' : qy < y -> G0 (qy + 1) <= G0 y).
-    { intros L. destruct (Z.eq_dec (qy + 1) y) as [<-|]; [lia|]. pose proof (G0_mono (qy + 1) y ltac:(lia)). lia. }
-    rewrite !ylen_eq in *.
-    destruct (jleap y) eqn:JL; destruct (gleap y) eqn:GL;
-      destruct (Z.lt_trichotomy y py) as [L1|[E1|L1]]; destruct (Z.lt_trichotomy y qy) as [L2|[E2|L2]];
-      try subst y; lia.
+    unfold incalb. rewrite feb29_old. change (1 <=? 2) with true. change (2 <=? 12) with true. change (1 <=? 29) with true.
+    cbn [andb negb]. rewrite andb_true_r. rewrite feb29_new. reflexivity.
   Qed.
+
+  Ltac cmp_simpl :=
+    repeat match goal with
+    | |- context[?a <? ?b] => first [replace (a <? b) with true by lia | replace (a <? b) with false by lia]
+    | |- context[?a =? ?b] => first [replace (a =? b) with true by lia | replace (a =? b) with false by lia]
+    | |- context[?a <=? ?b] => first [replace (a <=? b) with true by lia | replace (a <=? b) with false by lia]
+    end.
+  Ltac ysolve :=
+    repeat first [ progress cbn [bind andb orb negb ykind_gen Month_discr]
+                 | rewrite Month_eq_ok | rewrite Month_lt_ok | rewrite Month_le_ok
+                 | rewrite Month_discr_of_Z by assumption
+                 | rewrite is_julian_leap_year_ok | rewrite is_gregorian_leap_year_ok
+                 | progress cmp_simpl
+                 | match goal with |- context[if ?c then _ else _] => destruct c eqn:? end ];
+    try reflexivity; exfalso; lia.
 
   Definition rcal : Calendar := mkCalendar (inner_Calendar_Reforming r the_gap).
 
@@ -152,24 +178,86 @@ Section Reforming.
       + subst y. destruct (Z.ltb_spec py qy) as [L2|L2]; cbn [bind].
         * (* EqLower *)
           destruct (jleap py) eqn:JL; destruct (gleap py) eqn:GL;
-          repeat first [progress cbn [bind andb orb negb ykind_gen]
-                       | match goal with |- context[if ?c then _ else _] => destruct c eqn:? end]; try reflexivity; exfalso; lia.
+          ysolve.
         * (* EqBoth *)
           assert (py = qy) by lia. subst qy.
           destruct (jleap py) eqn:JL; destruct (gleap py) eqn:GL;
-          repeat first [progress cbn [bind andb orb negb ykind_gen]
-                       | match goal with |- context[if ?c then _ else _] => destruct c eqn:? end]; try reflexivity; exfalso; lia.
+          ysolve.
       + destruct (Z.ltb_spec y qy) as [L2|L2]; cbn [bind].
         * (* Between *)
           repeat match goal with |- context[if ?c then _ else _] => destruct c eqn:? end; try reflexivity; exfalso; lia.
         * destruct (Z.eqb_spec y qy) as [E2|N2]; cbn [bind].
           -- (* EqUpper *) subst y.
              destruct (jleap qy) eqn:JL; destruct (gleap qy) eqn:GL;
-             repeat first [progress cbn [bind andb orb negb ykind_gen]
-                          | match goal with |- context[if ?c then _ else _] => destruct c eqn:? end]; try reflexivity; exfalso; lia.
+             ysolve.
           -- (* Greater *)
              destruct (jleap y) eqn:JL; destruct (gleap y) eqn:GL;
-             repeat first [progress cbn [bind andb orb negb ykind_gen]
-                          | match goal with |- context[if ?c then _ else _] => destruct c eqn:? end]; try reflexivity; exfalso; lia.
+             ysolve.
+  Qed.
+
+  Lemma year_length_reforming y : in_i32 y ->
+    Calendar_year_length rcal y = Ret (year_count (CR r) y).
+  Proof.
+    intros Hy. unfold Calendar_year_length. cbn [rcal Calendar_f_0]. fold rcal.
+    rewrite year_kind_reforming by exact Hy. cbn [bind].
+    unfold the_gap. cbn [inner_ReformGap_f_pre_reform inner_ReformGap_f_post_reform inner_ReformGap_f_ordinal_gap inner_Date_f_year inner_Date_f_ordinal].
+    change (to_u32 COMMON_YEAR_LENGTH) with 365. change (to_u32 LEAP_YEAR_LENGTH) with 366.
+    unfold year_kind_of, year_count. rewrite old_days_eq, new_days_eq, incal_feb29.
+    pose proof r_year_bounds as [[A B] [C D]]. pose proof py_le_qy.
+    pose proof (J0_step py). pose proof (G0_step qy). pose proof (G0_step y) as GS.
+    pose proof (ylen_bounds (jleap y)). pose proof (ylen_bounds (gleap y)).
+    rewrite !ylen_eq in *.
+    destruct (Z.lt_trichotomy y py) as [L1|[E1|L1]]; destruct (Z.lt_trichotomy y qy) as [L2|[E2|L2]];
+      try subst y; try subst qy; try (exfalso; lia);
+      destruct (jleap _) eqn:JL; destruct (gleap _) eqn:GL;
+      repeat first [ progress cbn [bind andb orb negb ykind_gen]
+                   | rewrite is_gregorian_leap_year_ok
+                   | rewrite GL | rewrite JL
+                   | progress cmp_simpl
+                   | rewrite u32_sub_ok by range
+                   | match goal with |- context[if ?c then _ else _] => destruct c eqn:? end ];
+      try reflexivity; try (f_equal; lia); exfalso; lia.
   Qed.
 End Reforming.
+
+(* ------------------------------------------------------------------ all calendars *)
+Lemma cal_of_CR r py pm pd qy qm qd : GapInfo r py pm pd qy qm qd ->
+  cal_of (CR r) = rcal r py pm pd qy qm qd.
+Proof. intros GI. unfold cal_of, rcal. rewrite (gap_of_eq _ _ _ _ _ _ _ GI). reflexivity. Qed.
+
+Lemma year_kind_ok c y : ValidCal c -> in_i32 y ->
+  Calendar_year_kind (cal_of c) y = Ret (ykind_gen (year_kind_of c y)).
+Proof.
+  intros V Hy. destruct c as [| |r].
+  - unfold Calendar_year_kind. cbn [cal_of Calendar_JULIAN Calendar_f_0]. rewrite is_julian_leap_year_ok. cbn [bind].
+    unfold year_kind_of, year_count. cbn [old_days new_days]. pose proof (ylen_bounds (jleap y)).
+    replace (ylen (jleap y) + 0 =? 0) with false by lia. change (0 =? 0) with true.
+    replace (ylen (jleap y) + 0 =? ylen (jleap y)) with true by lia. cbn [andb]. destruct (jleap y); reflexivity.
+  - unfold Calendar_year_kind. cbn [cal_of Calendar_GREGORIAN Calendar_f_0]. rewrite is_gregorian_leap_year_ok. cbn [bind].
+    unfold year_kind_of, year_count. cbn [old_days new_days]. pose proof (ylen_bounds (gleap y)). pose proof (ylen_bounds (jleap y)).
+    pose proof (gleap_jleap y) as GJ.
+    replace (0 + ylen (gleap y) =? 0) with false by lia. replace (ylen (gleap y) =? 0) with false by lia. cbn [andb].
+    change (0 =? 0) with true. replace (0 + ylen (gleap y) =? ylen (gleap y)) with true by lia. cbn [andb].
+    destruct (gleap y); reflexivity.
+  - cbn [ValidCal] in V. destruct (gap_info r V) as (py & pm & pd & qy & qm & qd & GI).
+    rewrite (cal_of_CR _ _ _ _ _ _ _ GI). apply year_kind_reforming; assumption.
+Qed.
+
+Lemma year_length_ok c y : ValidCal c -> in_i32 y ->
+  Calendar_year_length (cal_of c) y = Ret (year_count c y).
+Proof.
+  intros V Hy. destruct c as [| |r].
+  - unfold Calendar_year_length. cbn [cal_of Calendar_JULIAN Calendar_f_0].
+    change Calendar_JULIAN with (cal_of CJ). rewrite year_kind_ok by (cbn; auto). cbn [bind].
+    unfold year_kind_of, year_count. cbn [old_days new_days]. pose proof (ylen_bounds (jleap y)).
+    replace (ylen (jleap y) + 0 =? 0) with false by lia. change (0 =? 0) with true.
+    replace (ylen (jleap y) + 0 =? ylen (jleap y)) with true by lia. cbn [andb]. destruct (jleap y); reflexivity.
+  - unfold Calendar_year_length. cbn [cal_of Calendar_GREGORIAN Calendar_f_0].
+    change Calendar_GREGORIAN with (cal_of CG). rewrite year_kind_ok by (cbn; auto). cbn [bind].
+    unfold year_kind_of, year_count. cbn [old_days new_days]. pose proof (ylen_bounds (gleap y)). pose proof (ylen_bounds (jleap y)).
+    replace (0 + ylen (gleap y) =? 0) with false by lia. replace (ylen (gleap y) =? 0) with false by lia. cbn [andb].
+    change (0 =? 0) with true. replace (0 + ylen (gleap y) =? ylen (gleap y)) with true by lia. cbn [andb].
+    destruct (gleap y); reflexivity.
+  - cbn [ValidCal] in V. destruct (gap_info r V) as (py & pm & pd & qy & qm & qd & GI).
+    rewrite (cal_of_CR _ _ _ _ _ _ _ GI). apply year_length_reforming; assumption.
+Qed.
